@@ -1406,7 +1406,10 @@ def check_derived_cmp(rep, g):
                     ok = call is not None and call[0] == 'call' and cname(ex, call) == 'partial_cmp' and \
                         (ctrait(ex, call) or '').endswith('cmp::PartialOrd') and len(call[2]) == 2 and \
                         strip_view(ex, call[2][0]) == SELF0 and strip_view(ex, call[2][1]) == OTHER0
-                    ok = ok and rets[0].conds == [(('discr', call), 1)] and divs[0].conds == [(('discr', call), 0)]
+                    def two_variant(conds):
+                        # Option has two variants: "not Some" is None and the reverse (a `let .. else` lowers to the otherwise edge)
+                        return [(c, (1 - v[1][0]) if isinstance(v, tuple) and v[0] == 'not' and len(v[1]) == 1 and v[1][0] in (0, 1) else v) for c, v in conds]
+                    ok = ok and two_variant(rets[0].conds) == [(('discr', call), 1)] and two_variant(divs[0].conds) == [(('discr', call), 0)]
                 rep.ob('R-DERIVE', ok, g, 'float Ord::cmp = partial_cmp(&a.0, &b.0) unwrapped; its only panic edge is the None (NaN) arm',
                        {'outs': [repr(o)[:300] for o in outs][:3]})
                 continue
@@ -1561,6 +1564,60 @@ def enclosing_method(fn):
     return parts[-1] if parts else ''
 
 
+def callers_of(F, lid):
+    """lids of the bodies that call (or take the address of) the local fn `lid`"""
+    cache = F.__dict__.setdefault('_callers', None)
+    if cache is None:
+        cache = {}
+        def walk_fn_refs(x, owner):
+            if isinstance(x, dict):
+                f = x.get('fn')
+                if isinstance(f, dict):
+                    for l in (f.get('lid'), (f.get('res') or {}).get('lid')):
+                        if l is not None:
+                            cache.setdefault(l, set()).add(owner)
+                for v in x.values():
+                    if isinstance(v, (dict, list)):
+                        walk_fn_refs(v, owner)
+            elif isinstance(x, list):
+                for v in x:
+                    walk_fn_refs(v, owner)
+        for fn in F.fns.values():
+            walk_fn_refs(fn.get('blocks', []), fn['lid'])
+            for pb in fn.get('promoted', []):
+                walk_fn_refs(pb.get('blocks', []), fn['lid'])
+        F.__dict__['_callers'] = cache
+    return cache.get(lid, set())
+
+
+def is_ctor_helper(g, fn, _seen=None):
+    """a generated inherent fn that is private to the generated module and referenced only from the canonical constructor
+    (or from other such helpers) is part of the constructor: the constructor's outcome table inlines it"""
+    ctor = g.ctor()
+    if ctor is None or fn['lid'] == ctor['lid'] or fn.get('kind') == 'Closure':
+        return False
+    if fn.get('vis') != 'in:' + g.modpath or not str(fn.get('span', '')).startswith('!') or fn.get('unsafe'):
+        return False
+    _seen = (_seen or set()) | {fn['lid']}
+    callers = callers_of(g.F, fn['lid'])
+    if not callers:
+        return False
+    for c in callers:
+        if c == ctor['lid'] or c in _seen:
+            continue
+        cf = g.F.fns.get(c)
+        # closures inside the constructor / a helper count as their parent
+        while cf is not None and cf.get('kind') == 'Closure':
+            cf = g.F.fns.get(cf.get('parent'))
+        if cf is None:
+            return False
+        if cf['lid'] == ctor['lid'] or cf['lid'] in _seen:
+            continue
+        if not is_ctor_helper(g, cf, _seen):
+            return False
+    return True
+
+
 def check_ctor_sites(rep, F, gens, methods=None, only=None):
     """R-CTOR: who may construct / mutate a newtype, over every body of the crate.
     methods: restrict the reported sites to bodies belonging to these methods (a property about `from_str` is not
@@ -1602,6 +1659,8 @@ def check_ctor_sites(rep, F, gens, methods=None, only=None):
             elif name == 'clone' and any(g.impl_fn(i, 'clone') is not None and g.impl_fn(i, 'clone')['lid'] == fl
                                          for i in g.trait_impls('clone::Clone')):
                 allowed = 'clone'
+            elif is_ctor_helper(g, fn):
+                allowed = 'ctor-helper'
         counts[(kind, allowed or 'OTHER')] += 1
         rep.ob('R-CTOR', allowed is not None, g,
                f'{kind} of T in `{fn.get("name")}` ({fn["path"].split("::")[-2] if "::" in fn["path"] else ""}) is an allowed site (constructor / flagged unsafe new_unchecked / derived clone)',
@@ -1675,6 +1734,12 @@ def check_hygiene(rep, g):
                     par = m['path']
             rep.ob('R-HYGIENE', tg == [par] or (not u['targets']), g, 'the only glob import of the generated module is `use super::*`', {'targets': tg})
             continue
+        if not u.get('in_mod', True):
+            # an import inside a generated function body / const block shadows the name there only: it matters when user
+            # tokens are spliced into that body
+            owner = [fn for fn in g.fns if fn['path'] == u.get('owner')]
+            if not owner or not any(has_user_tokens(F, fn) for fn in owner):
+                continue
         for t in u['targets']:
             nm = u.get('name') or t['path'].split('::')[-1]
             ok = nm in HYGIENE_IMPORTS or nm.startswith('__') or nm == '_'
@@ -1764,6 +1829,7 @@ def check_no_bypass(rep, g):
         if mentions_T(out):
             known = fn['name'] in ('try_new', 'new', 'new_unchecked', 'clone', 'default', 'arbitrary', 'try_from', 'from', 'from_str',
                                    'deserialize', 'visit_newtype_struct', 'make')
+            known = known or is_ctor_helper(g, fn)   # a private piece of the constructor, not an entry point
             rep.ob('R-API', known, g, f'fn `{fn["name"]}` producing T is a known entry point', {'path': fn['path']})
 
 
